@@ -916,10 +916,21 @@ pub fn get_value(
             match function_arg.parse::<i64>() {
                 Ok(val) => {
                     if function_args.is_empty() {
+                        // an empty range cannot be sampled: RANDOM(0), RANDOM(-3)
+                        if val <= 0 {
+                            error_exit(
+                                "The argument of RANDOM function must be positive",
+                                function_arg.as_str(),
+                            );
+                        }
                         Variant::from_int(rng.random_range(0..val))
                     } else {
                         let limit = function_args.first().unwrap();
                         match limit.parse::<i64>() {
+                            Ok(limit) if val >= limit => error_exit(
+                                "The limit argument of RANDOM function must be above the first one",
+                                limit.to_string().as_str(),
+                            ),
                             Ok(limit) => Variant::from_int(rng.random_range(val..limit)),
                             _ => error_exit(
                                 "Could not parse limit argument of RANDOM function",
